@@ -23,3 +23,5 @@ type (
 	FLAG = core.FLAG
 	CONE = core.CONE
 )
+
+type ERRFLOW = core.ERRFLOW
